@@ -38,6 +38,7 @@ def check(chk: Check) -> None:
                     'no non-Exception raise and no interpreter exit in the code reachable from parse/eval/list_names']
     chk.not_decided += ['that no *other* exception type can arise for an ill-typed program (outside the listed classes)',
                         'stack exhaustion on deeply nested trees (CPython raises RecursionError, an ordinary Exception)']
+    _token_rules_cannot_underflow(chk, R2)
     g = C.grammar(F)
     lm = C.lexmodel(F)
     T = C.templates(F)
@@ -512,3 +513,35 @@ def totality_problems(paths, label='', single_chars=False) -> Tuple[List[str], L
                 continue
             unknown.append('`%s`' % e.text())
     return problems, unknown
+
+
+def _token_rules_cannot_underflow(chk: Check, R2: str) -> None:
+    """PLY's Lexer.pop_state() is `self.begin(self.lexstatestack.pop())`: on an empty stack it raises IndexError from inside
+    token(), before the parser ever sees the offending character.  A token rule that pops a state for a closing construct
+    must therefore be guarded (try/except IndexError -> ParserError, or a test of the stack).  Decided from the lexer
+    module's source alone (the lexer model itself does not model states)."""
+    F = chk.facts
+    from ..grammar import parser_modules
+    _, lex_m, _ = parser_modules(F)
+    for name, node in lex_m.defs.items():
+        if not (isinstance(node, ast.FunctionDef) and name.startswith('t_')):
+            continue
+        parents = {}
+        for n in ast.walk(node):
+            for ch in ast.iter_child_nodes(n):
+                parents[ch] = n
+        for n in ast.walk(node):
+            if isinstance(n, ast.Call) and isinstance(n.func, ast.Attribute) and n.func.attr == 'pop_state':
+                guarded = False
+                x = n
+                while x in parents:
+                    x = parents[x]
+                    if isinstance(x, ast.Try) and any(h.type is None or 'IndexError' in ast.dump(h.type) or 'LookupError' in ast.dump(h.type)
+                                                      or 'Exception' in ast.dump(h.type) for h in x.handlers):
+                        guarded = True
+                    if isinstance(x, (ast.If, ast.IfExp)) and 'lexstatestack' in ast.dump(x.test):
+                        guarded = True
+                chk.require(guarded, R2, '%s.%s :: `%s`' % (lex_m.name, name, norm(n)), '%s:%d' % (lex_m.rel, n.lineno),
+                            'guarded against an empty state stack' if guarded else
+                            'pop_state() on an empty state stack raises IndexError inside token(): a closing construct without its opener '
+                            '(a stray bracket) escapes as IndexError instead of a ParserError')
